@@ -124,12 +124,13 @@ func (t *sleepTransaction) stopTimer() {
 
 func (t *sleepTransaction) startSleep() {
 	t.log.Debug("Sleeping for %v...", t.sleepDuration)
+	t.client.setState(util.StateAsleep)
 	// A (keep-alive) ping still in progress must not be retransmitted while
-	// asleep and must not take the wake-up PINGRESP.
+	// asleep and must not take the wake-up PINGRESP. No new one can start
+	// anymore.
 	if ping, ok := t.client.transactions.GetByType(pkts.PINGREQ); ok {
 		ping.Success()
 	}
-	t.client.setState(util.StateAsleep)
 	t.timer = time.AfterFunc(t.sleepDuration, t.wakeup)
 }
 
